@@ -1142,6 +1142,52 @@ func c19(c *core.Ctx) {
 		c.EndRule()
 	}
 
+	// ---------------------------------------------------------------- R8
+	if c.Rule("R8", "for every proto file: the per-file generator refuses no file on its own account — each error it returns is the error of a call outside the plugin (writing the Go file), not one it (or a checking helper of the plugin) constructs: protoc has accepted the file, and a name check of the plugin's own that is stricter than what it emits (identifier collisions it only imagines) leaves a valid file without registration function and stubs", 1) {
+		bad := ""
+		var where token.Pos
+		n := 0
+		for _, r := range core.Returns(gen) {
+			ei := core.ErrResultIndex(gen.Signature)
+			if ei < 0 || ei >= len(r.Results) {
+				continue
+			}
+			n++
+			for _, l := range core.ErrLeaves(r.Results[ei], r) {
+				call, ok := core.Strip(l.V).(*ssa.Call)
+				if !ok {
+					continue
+				}
+				ci := core.InfoOf(&call.Call)
+				if ci.Is("fmt.Errorf") || ci.Is("errors.New") || (ci.Static != nil && core.PkgIs(ci.Static, genPkg) && errorMaker(ci.Static, 0)) {
+					bad, where = ci.Name, r.Pos()
+				}
+				// a checking helper of the plugin: its error is the plugin's own verdict, too
+				if ci.Static != nil && ci.Static.Blocks != nil && core.PkgIs(ci.Static, genPkg) && bad == "" {
+					for _, hr := range core.Returns(ci.Static) {
+						hei := core.ErrResultIndex(ci.Static.Signature)
+						if hei < 0 || hei >= len(hr.Results) {
+							continue
+						}
+						for _, hl := range core.ErrLeaves(hr.Results[hei], hr) {
+							if hc, ok := core.Strip(hl.V).(*ssa.Call); ok {
+								if hi := core.InfoOf(&hc.Call); hi.Is("fmt.Errorf") || hi.Is("errors.New") {
+									bad, where = ci.Name+" → "+hi.Name, r.Pos()
+								}
+							}
+						}
+					}
+				}
+			}
+		}
+		if n == 0 {
+			c.Undecided(gk+":refuses-no-file", gen.Pos(), "the generator has no error result")
+		} else {
+			c.Check(bad == "", gk+":refuses-no-file", where, "every error the per-file generator returns is that of a call outside the plugin", "the per-file generator returns an error it makes itself ("+bad+"): a proto file that protoc accepted is refused by the plugin and gets neither registration function nor stubs")
+		}
+		c.EndRule()
+	}
+
 	// ---------------------------------------------------------------- R6
 	if c.Rule("R6", "what was generated is what protoc gets: the generator only writes into the plugin response (OutputFile / OutputSnippet / SupportsFeatures); the response's contents are one-shot readers that the plugin runner serialises, so nothing of the generator reads them back (ForEach) — a reader emptied by a report or a post-processing pass leaves an empty file", 1) {
 		writes := map[string]bool{"OutputFile": true, "OutputSnippet": true, "SupportsFeatures": true}
